@@ -588,12 +588,31 @@ func c13Grpcpath(c *Ctx) {
 		name := safeFname(anchor)
 		n := 0
 		for _, fn := range c.scope(anchor, 2, c.a.ReplacePH, c.a.NumInput, c.a.NewRows) {
-			var bind *ssa.Call
-			allInstrs(fn, func(i ssa.Instruction) {
-				if call, ok := i.(*ssa.Call); ok && calleeFunc(&call.Call) == c.a.ReplacePH {
-					bind = call
+			// the bound query: the result of ReplacePlaceholders, directly or as the (non-nil) result of a binding helper
+			var isBound func(v ssa.Value, depth int) bool
+			isBound = func(v ssa.Value, depth int) bool {
+				v = peel(v)
+				if call, ok := v.(*ssa.Call); ok && calleeFunc(&call.Call) == c.a.ReplacePH {
+					return true
 				}
-			})
+				if depth > 1 {
+					return false
+				}
+				if _, _, vals, ok := resultOrigins(c.w, v); ok {
+					n := 0
+					for _, rv := range vals {
+						if isNilConst(rv) {
+							continue
+						}
+						n++
+						if !isBound(rv, depth+1) {
+							return false
+						}
+					}
+					return n > 0
+				}
+				return false
+			}
 			allInstrs(fn, func(i ssa.Instruction) {
 				call, ok := i.(*ssa.Call)
 				if !ok || calleeFunc(&call.Call) != c.a.NewRows {
@@ -601,7 +620,7 @@ func c13Grpcpath(c *Ctx) {
 				}
 				n++
 				gp := path(call.Call.Args[1])
-				okG := bind != nil && gp.lastField() != nil && gp.lastField().Name() == "GroupBy" && peel(gp.Root) == ssa.Value(bind)
+				okG := gp.lastField() != nil && gp.lastField().Name() == "GroupBy" && isBound(gp.Root, 0)
 				okR := okResult(call.Call.Args[0], 0)
 				c.r.check(okG && okR, rule, name, "newRows(result, bound query's GroupBy)", "the rows are not built from this statement's (converted) result and the bound query's group-by list", c.w.ipos(i))
 			})
